@@ -81,10 +81,10 @@ def gen_input(g, sb_dir, kind):
     p = os.path.join(base, 'bad'); os.makedirs(p); open(os.path.join(p, 'bad.cmake'), 'w').write('set(x "unterminated)\n'); return kind, p, True
 
 
-def cmake_suite(seed, count, out, drv, budget_s=None):
+def cmake_suite(seed, count, out, drv, budget_s=None, only=None):
     if not shutil.which('cmake'): raise common.HarnessError('cmake not installed')
     t0 = time.time(); done = 0
-    for n in range(count):
+    for n in (range(count) if only is None else [only]):
         if budget_s and time.time() - t0 > budget_s:
             out.notes.append(f"cmake suite stopped at {done}/{count} (time budget)"); break
         g = random.Random(f"C19/{seed}/{n}")
@@ -152,4 +152,11 @@ def k5_witness(drv):
 
 
 def replay(v, drv):
-    return dict(fails=True, note='cmake cases are regenerated from their key; rerun the check with the same VERIF_SEED', key=v.get('key'))
+    """cases are a function of (seed, n): regenerate that one case and run it again"""
+    from suites import Outcome
+    key = v.get('key') or []
+    if len(key) != 3: return dict(fails=True, note='no case key recorded')
+    out = Outcome('C19')
+    cmake_suite(key[1], key[2] + 1, out, drv, only=key[2])
+    mine = [x for x in out.violations if x.get('detail', {}).get('kind') == v.get('detail', {}).get('kind')] or out.violations
+    return dict(fails=bool(mine), violations=[x.get('detail') for x in mine][:3], case=dict(kind=v.get('kind'), mode=v.get('mode'), relative_input=v.get('relative_input'), extra=v.get('extra')))
